@@ -46,7 +46,7 @@ def gen_meta_file(rng):
     for i in range(nk):
         key = "k%d_%s" % (i, rng.choice(["im", "sns", "file", "ni", "sync"]))
         tilde = rng.random() < 0.15
-        kind = rng.choice(["str", "int", "dec", "ilist", "empty", "small", "big", "zeros"], p=[.3, .2, .15, .15, .05, .05, .05, .05])
+        kind = rng.choice(["str", "int", "dec", "ilist", "empty", "small", "big", "zeros", "full"], p=[.28, .18, .13, .13, .05, .05, .05, .05, .08])
         if kind == "str":
             v = str(rng.choice(WORDS))
             exp = v
@@ -58,6 +58,13 @@ def gen_meta_file(rng):
             a = int(rng.integers(0, 100000))
             b = "".join(rng.choice(list("0123456789"), int(rng.integers(1, 13))))
             v = f"{a}.{b}"
+            exp = float(v)
+        elif kind == "full":
+            # a double written with all its digits (durations, sampling rates: 824.4640643928594, 0.03333333333333333, ...)
+            xv = float(rng.random() * 10.0 ** float(rng.integers(-7, 4)))
+            v = repr(xv)
+            if "e" in v:
+                v = f"{xv:.40f}".rstrip("0")
             exp = float(v)
         elif kind == "small":
             v = "0." + "0" * int(rng.integers(4, 9)) + str(int(rng.integers(1, 99999)))
